@@ -23,13 +23,13 @@ OTHER = '__OTHER__'
 def gen_case(rng):
     import navis
     nn = int(rng.integers(1, 7))
-    pool = [int(c) for c in rng.choice(np.arange(1, 40), size=int(rng.integers(1, 9)), replace=False)]
+    pool = [int(c) for c in rng.choice(np.arange(0, 40), size=int(rng.integers(1, 9)), replace=False)]       # connector id 0 too
     multi_pre_ok = rng.random() < 0.15
     used_pre = set()
     neurons, rows = [], []
     for i in range(nn):
         nnodes = int(rng.integers(1, 6))
-        ids = [int(v) for v in rng.choice(np.arange(1, 60), size=nnodes, replace=False)]
+        ids = [int(v) for v in rng.choice(np.arange(0, 60) if rng.random() < 0.5 else np.arange(0, 6), size=nnodes, replace=False)]      # node id 0 is a valid id
         nodes = pd.DataFrame({'node_id': ids, 'parent_id': [-1] + ids[:-1], 'x': 0., 'y': 0., 'z': 0., 'radius': 0.})
         n = navis.TreeNeuron(nodes, name='n%d' % i, soma=None)
         k = int(rng.integers(0, 11))
